@@ -429,6 +429,22 @@ func (c *Cluster) ByzAct(a *Actor, which string) {
 				sig = c.padded(a, v.ToBytes(), []hotstuff.QuorumSignature{t.ViewSignature}, q)
 			}
 		}
+		if sig == nil && c.W.Scheme != crypto.NameBLS12 && c.Rng.Chance(1, 3) {
+			// a quorum of DISTINCT configured replicas, one genuine signature (the actor's own) and junk for the others
+			own, err := a.M.Auth.Sign(v.ToBytes())
+			if err == nil {
+				var ids []hotstuff.ID
+				var raws [][]byte
+				pos := c.Rng.Intn(q)
+				for _, id := range c.W.IDsExcept(a.ID, q-1) {
+					ids = append(ids, id)
+					raws = append(raws, c.Rng.Bytes(len(own.ToBytes())))
+				}
+				ids = append(ids[:pos], append([]hotstuff.ID{a.ID}, ids[pos:]...)...)
+				raws = append(raws[:pos], append([][]byte{own.ToBytes()}, raws[pos:]...)...)
+				sig = c.sigInterleaved(ids, raws)
+			}
+		}
 		if sig != nil {
 		} else if c.Rng.Bool() || len(st.timeouts) == 0 {
 			sig = c.sigRepeated(a, v.ToBytes(), q)
